@@ -788,6 +788,7 @@ def _check_upgma_general(ctx, case):
         dist = {}
         for k, (a, b) in enumerate(itertools.combinations(labels, 2)):
             dist[frozenset([a, b])] = case["tri"][k] / 8.0
+        labels.sort()
     pdm, _ = matrix_by_route(ctx, case["r"], spec, dist, labels)
     check_matrix_values(ctx, pdm, dist, labels, "C14.upgma_general.matrix")
     tree = ctx.call("C14.upgma.call", pdm.upgma_tree)
@@ -900,10 +901,10 @@ SUBCHECKS = {"pdm": check_pdm, "mrca": check_mrca, "nj": check_nj, "upgma": chec
 def run(ctx):
     quick = ctx.tier == "quick"
     n = ctx.nshards
-    runner.run_given(ctx, "pdm", pdm_cases(12 if quick else 40), check_pdm, (1200 if quick else 16000) // n)
-    runner.run_given(ctx, "mrca", mrca_cases(12 if quick else 40), check_mrca, (1600 if quick else 32000) // n)
-    runner.run_given(ctx, "nj", nj_cases(12 if quick else 30), check_nj, (1200 if quick else 16000) // n)
-    runner.run_given(ctx, "upgma", upgma_cases(12 if quick else 30), check_upgma, (800 if quick else 12000) // n)
+    runner.run_given(ctx, "pdm", pdm_cases(12 if quick else 40), check_pdm, (1200 if quick else 24000) // n)
+    runner.run_given(ctx, "mrca", mrca_cases(12 if quick else 40), check_mrca, (1600 if quick else 48000) // n)
+    runner.run_given(ctx, "nj", nj_cases(12 if quick else 30), check_nj, (1200 if quick else 24000) // n)
+    runner.run_given(ctx, "upgma", upgma_cases(12 if quick else 30), check_upgma, (800 if quick else 16000) // n)
     runner.run_given(ctx, "upgma_general", upgma_general_cases(9 if quick else 16), check_upgma_general,
-                     (800 if quick else 12000) // n)
+                     (800 if quick else 16000) // n)
     runner.run_items(ctx, "exhaustive", exhaustive_items(5 if quick else 6), check_exh)
